@@ -185,16 +185,21 @@ func (s *TimerQueue) worker(ready chan struct{}) {
 	}
 }
 
+// accept a start request, unless the timer was cancelled in the meantime
 func (s *TimerQueue) addNode(node *timerNode) {
 	s.guard.Lock()
-	s.refer[node.id] = node
+	var scheduled = s.refer[node.id] == node
 	s.guard.Unlock()
-
+	if !scheduled {
+		return
+	}
 	heap.Push(&s.timers, node)
 }
 
 func (s *TimerQueue) delNode(node *timerNode) {
-	heap.Remove(&s.timers, node.index)
+	if node.index >= 0 { // not in the heap: never accepted, or expired already
+		heap.Remove(&s.timers, node.index)
+	}
 }
 
 func (s *TimerQueue) tick(t time.Time) {
@@ -264,6 +269,7 @@ type timerNode struct {
 func newTimerNode(id int, deadline, period int64, r Runnable) *timerNode {
 	return &timerNode{
 		id:       id,
+		index:    -1, // not in the heap
 		deadline: deadline,
 		period:   period,
 		r:        r,
